@@ -48,6 +48,7 @@ static channel CHS[2];
 static sk_result* OUT;
 static const sk_mask* MASK;
 static int SESSION; /* 0 faulted, 1 recovery */
+static int c15_only;
 
 static err_t certval(octet* pubkey, const bign_params* params, const octet* data, size_t len)
 {
@@ -484,6 +485,7 @@ void run_bake(uint64_t seed, const sk_mask* mask, sk_result* out, int alloc_mode
 	int rc, strat, honest, s, k;
 	long N[2] = { 0, 0 };
 	OUT = out, MASK = mask;
+	c15_only = !strcmp(sk_options.property, "C15");
 	sk_rng_seed(&r, seed);
 	gen_cfg(&r, alloc_mode);
 	fill = sk_u64(&r);
@@ -666,14 +668,10 @@ void run_bake(uint64_t seed, const sk_mask* mask, sk_result* out, int alloc_mode
 		sk_violate(out, "overrun:protocol", "canary damaged during a %s session", PN[c->proto]);
 		return;
 	}
-	if (sk_heap_live())
-	{
-		char cls[96];
-		snprintf(cls, sizeof(cls), "leak:%s", PT[0].failed_call ? PT[0].failed_call : PT[1].failed_call ? PT[1].failed_call : PN[c->proto]);
-		sk_violate(out, cls, "%ld block(s) left allocated after the session (A rc=%u, B rc=%u)", sk_heap_live(), (unsigned)PT[0].rc, (unsigned)PT[1].rc);
-		return;
-	}
-	/* released memory must not hold long-term or session secrets */
+	/* released memory - and memory still allocated when the parties returned -
+	   must not hold long-term or session secrets (C15) */
+	sk_heap_scan_live(on_release);
+	sk_count("released_octets", relfill);
 	for (s = 0; s < 2; ++s)
 	{
 		const octet* sec[3];
@@ -685,10 +683,24 @@ void run_bake(uint64_t seed, const sk_mask* mask, sk_result* out, int alloc_mode
 		for (q = 0; q < 3; ++q)
 			if (sl[q] >= 8 && window_in(relbuf, relfill, sec[q], sl[q]))
 			{
-				sk_violate(out, "secret_in_released_block:protocol", "a block released during the %s session holds 8+ octets of party %c's %s",
+				sk_violate(out, "secret_in_released_block:protocol", "a block released (or left allocated) during the %s session holds 8+ octets of party %c's %s",
 					PN[c->proto], s ? 'B' : 'A', q == 0 ? "private key" : q == 1 ? "password" : "session key");
 				return;
 			}
+	}
+	if (c15_only)
+	{
+		sk_count("probe.protocol_sessions_scanned", 1);
+		if (!honest)
+			sk_count("probe.protocol_error_exit_scanned", 1);
+		return; /* the C15 leg judges released memory only */
+	}
+	if (sk_heap_live())
+	{
+		char cls[96];
+		snprintf(cls, sizeof(cls), "leak:%s", PT[0].failed_call ? PT[0].failed_call : PT[1].failed_call ? PT[1].failed_call : PN[c->proto]);
+		sk_violate(out, cls, "%ld block(s) left allocated after the session (A rc=%u, B rc=%u)", sk_heap_live(), (unsigned)PT[0].rc, (unsigned)PT[1].rc);
+		return;
 	}
 	if (honest)
 	{
